@@ -731,6 +731,10 @@ def _match_slot(I: Interp, slot: Any, v: V, ops: List[Tuple[Tuple[int, ...], str
         return False
 
     alts = [a for a in alts_of(v) if not isinstance(a, NodeV)]  # raw nodes: rule A1
+    unk = [a for a in alts if isinstance(a, Unknown) and not hasattr(a, "keyerror") and not hasattr(a, "indexerror")]
+    if unk:
+        # part of the value comes out of code the interpreter does not model: no verdict on this argument
+        raise AnalysisError("R1", "argument", f"the value of an argument is not fully modelled ({unk[0]!r})")
     if isinstance(slot, int):
         if len(alts) == 1 and is_op(alts[0], slot):
             return None
